@@ -741,6 +741,11 @@ class IoContract(Generic[TermList_t]):
         terms_to_elim = allguarantees.get_terms_with_vars(intvars)
         allguarantees -= terms_to_elim
 
+        # guarantees of the operands that only mention interface variables remain guarantees of the
+        # composition; the steps above may have dropped them as redundant in a context that was then discarded
+        operand_guarantees = g1_t | g2_t
+        allguarantees = allguarantees | (operand_guarantees - operand_guarantees.get_terms_with_vars(intvars))
+
         return type(self)(assumptions, allguarantees, inputvars, outputvars), tactics_used
 
     def quotient(
